@@ -52,7 +52,7 @@ int c_var2h(int nvalvar, int nvalh,
 
     /* Set first time step to be immediately before hstart */
     varindex = 0;
-    while(varsec[varindex]<=hstartsec) varindex++;
+    while(varindex<nvalvar-1 && varsec[varindex]<=hstartsec) varindex++;
     varindex--;
 
     /* hstart is smaller than first value in varsec */
